@@ -5,6 +5,7 @@ go 1.23
 require (
 	github.com/jf-tech/omniparser v0.0.0
 	github.com/tkuchiki/go-timezone v0.2.0
+	golang.org/x/text v0.3.8
 )
 
 require (
@@ -20,7 +21,6 @@ require (
 	github.com/xeipuuv/gojsonreference v0.0.0-20180127040603-bd5ef7bd5415 // indirect
 	github.com/xeipuuv/gojsonschema v1.2.0 // indirect
 	golang.org/x/net v0.0.0-20220722155237-a158d28d115b // indirect
-	golang.org/x/text v0.3.8 // indirect
 )
 
 replace github.com/jf-tech/omniparser => /repo
